@@ -67,6 +67,7 @@ def decodeOp : Handler := fun args =>
       | "DeviceCount" => some (decodeDeviceCount v)
       | "UlimitsConfig" => some (decodeUlimit v)
       | "ShellCommand" => some (decodeShellCommand v)
+      | "SSHConfig" => some (decodeSSHConfig v)
       | _ => none
     match r with
     | none => Json.mkObj [("bad", "type")]
